@@ -157,7 +157,7 @@ def handleStats (op : String) (inp : Json) (impl : Option Json) : R (Option Json
       if (spreadStat nm).isNone then throw s!"unknown spread statistic {nm}"
     let cfg : Cfg := { loc, spread, ci := wantCi, pi := wantPi, alpha, skipLow }
     let bins' := if skipLow then dropLow bins else bins
-    let groups := segBins bins' segs .outer
+    let groups := segBins bins' segs segmetricsMode
     -- shape of the supplied draws: B rows of k positions < k for every group of ≥ 2 bins
     let nB := bootCount bootstraps q2a
     if wantCi then
